@@ -99,7 +99,7 @@ def _fva_steps(E, start):
     return [r for r in E.solve_log[start:] if "_fva_step" in r["site"] and "loopless_fva_iter" not in r["site"]]
 
 
-QUICK_T = (("T1", None), ("T2", None), ("T3", 3))
+QUICK_T = (("T1", None), ("T2", 3), ("T3", 2))
 THOROUGH_T = (("T1", None), ("T2", None), ("T3", None), ("T4", 4), ("T7", None))
 
 
@@ -156,7 +156,7 @@ def c05_fva_thorough(E):
 
 
 def c05_pfba_factor(E):
-    return c05_fva(E, templates=(("T2", 3), ("T3", 3)), fractions=(1, Fraction(1, 2)), pfba=(1, Fraction(11, 10)))
+    return c05_fva(E, templates=(("T2", 2), ("T3", 2)), fractions=(1, Fraction(1, 2)), pfba=(1, Fraction(11, 10)))
 
 
 def c05_pfba_factor_thorough(E):
@@ -245,13 +245,13 @@ def c05_loopless(E, templates=(("T3", ("R2",)), ("T3", ("R1",)), ("T10", ("R3",)
 
 HARNESSES = [
     H("c05_fva", c05_fva, tiers=("quick",), quick=dict(max_paths=8000, time_budget=80),
-      bounds="T1,T2 all flux bounds symbolic, T3 first 3 reactions symbolic (others at template values); bounds in "
+      bounds="T1 all flux bounds symbolic, T2 first 3, T3 first 2 reactions symbolic (others at template values); bounds in "
              "[-10,10], lb<=ub; objective x max/min; fraction in {1,1/2,0} (optimum sign assumed for fraction<1); "
              "reaction_list None/objects/ids; processes=1"),
     H("c05_fva_thorough", c05_fva_thorough, tiers=("thorough",), thorough=dict(max_paths=400000, time_budget=600),
       bounds="T1,T2,T3,T7 all bounds symbolic, T4 first 4; fractions {1,9/10,1/2,0}"),
     H("c05_pfba_factor", c05_pfba_factor, tiers=("quick",), quick=dict(max_paths=3000, time_budget=45),
-      bounds="T2,T3; first 3 reactions symbolic; pfba_factor in {1, 11/10}; fraction in {1,1/2}"),
+      bounds="T2,T3; first 2 reactions symbolic; pfba_factor in {1, 11/10}; fraction in {1,1/2}"),
     H("c05_loopless", c05_loopless, quick=dict(max_paths=3000, time_budget=70, witnesses=40),
       thorough=dict(max_paths=100000, time_budget=500, witnesses=200), witness_every=4,
       bounds="T3 (2-cycles R1/R2, R3/R2) and T10 (cycle R1 with -R3, uptake below cycle capacity), one symbolic reaction (0 or |b|>=1e-2); loopless=True for 2 internal "
